@@ -25,6 +25,7 @@ package main
 import (
 	"fmt"
 	"go/ast"
+	"sort"
 	"go/constant"
 	"go/token"
 	"go/types"
@@ -1545,4 +1546,207 @@ func (pr *Prog) constVal(rel, name string) (int64, bool) {
 		break
 	}
 	return 0, false
+}
+
+// C19-R6: every lock a function takes is released on every exit.
+//
+// Per function of package exec (closures are functions of their own), over the
+// control-flow graph: a counter per lock expression, +1 at X.Lock()/RLock(),
+// -1 at X.Unlock()/RUnlock(), deferred unlocks credited at the exits.  At
+// every return the counters are back at their entry value.  Two documented
+// hand-overs are modelled, not excepted: a `go` statement that passes a locked
+// task to a goroutine literal which unlocks it (the evaluator's waiter) moves
+// the obligation into the literal; functions entered with the lock held that
+// release and re-take it (Task.Wait) are balanced by construction.  A missing
+// unlock on one path is a deadlock for the next run, scan or discard that
+// touches the object — which is how a "concurrent run" clause fails without
+// any data race.
+func c19r6(c *RC) {
+	pr := c.P
+	n := 0
+	for _, fn := range pr.FuncsIn("exec") {
+		if fn.Body == nil {
+			continue
+		}
+		// does it lock or unlock anything?
+		has := false
+		inspectNoLit(fn.Body, func(nd ast.Node) bool {
+			if k, ok := nd.(*ast.CallExpr); ok {
+				if se, ok := k.Fun.(*ast.SelectorExpr); ok {
+					switch se.Sel.Name {
+					case "Lock", "RLock", "Unlock", "RUnlock":
+						if isMutexLike(fn.Pkg, se) {
+							has = true
+						}
+					}
+				}
+			}
+			return true
+		})
+		if !has {
+			continue
+		}
+		n++
+		fq := fn.QName()
+		fl := pr.Flow(fn)
+		// entry state: a literal that is handed a locked task starts at +1 for it
+		init := map[string]int{}
+		if fn.Type != nil && fn.Type.Params != nil {
+			for _, p := range fn.Type.Params.List {
+				for _, nm := range p.Names {
+					if strings.HasSuffix(expr(p.Type), "Task") && c03handedOver(c, fn, nm.Name) {
+						init[nm.Name] = 1
+					}
+				}
+			}
+		}
+		enc := func(m map[string]int) string {
+			var l []string
+			for k, v := range m {
+				if v != 0 {
+					l = append(l, k+"="+itoa(v))
+				}
+			}
+			sort.Strings(l)
+			return strings.Join(l, ",")
+		}
+		dec := func(x string) map[string]int {
+			m := map[string]int{}
+			for _, kv := range strings.Split(x, ",") {
+				if i := strings.LastIndexByte(kv, '='); i > 0 {
+					v := 0
+					fmt.Sscanf(kv[i+1:], "%d", &v)
+					m[kv[:i]] = v
+				}
+			}
+			return m
+		}
+		// deferred unlocks (direct, or inside a deferred literal)
+		deferred := map[ast.Node]map[string]int{}
+		inspectNoLit(fn.Body, func(nd ast.Node) bool {
+			d, ok := nd.(*ast.DeferStmt)
+			if !ok {
+				return true
+			}
+			m := map[string]int{}
+			count := func(k *ast.CallExpr) {
+				if se, ok := k.Fun.(*ast.SelectorExpr); ok && isMutexLike(fn.Pkg, se) {
+					switch se.Sel.Name {
+					case "Unlock", "RUnlock":
+						m[nospace(se.X)]--
+					case "Lock", "RLock":
+						m[nospace(se.X)]++
+					}
+				}
+			}
+			count(d.Call)
+			if lit, ok := d.Call.Fun.(*ast.FuncLit); ok {
+				for _, k := range callsIn(lit.Body) {
+					count(k)
+				}
+			}
+			deferred[d] = m
+			return true
+		})
+		bad := ""
+		var trail []string
+		fl.Walk(fl.Entry(), enc(init)+"|", nil, Visitor{NoFacts: true,
+			Node: func(nd ast.Node, x string, s *Step) (string, bool) {
+				parts := strings.SplitN(x, "|", 2)
+				held := dec(parts[0])
+				defs := parts[1]
+				if d, ok := nd.(*ast.DeferStmt); ok {
+					for k, v := range deferred[d] {
+						defs += fmt.Sprintf("%s=%d;", k, v)
+					}
+					return enc(held) + "|" + defs, false
+				}
+				if g, ok := nd.(*ast.GoStmt); ok {
+					// hand-over: a locked task passed to a literal that unlocks it
+					if lit, ok := g.Call.Fun.(*ast.FuncLit); ok {
+						if lf := pr.idx.byLit[lit]; lf != nil && lf.Type.Params != nil {
+							i := 0
+							for _, p := range lf.Type.Params.List {
+								for _, nm := range p.Names {
+									if i < len(g.Call.Args) && strings.HasSuffix(expr(p.Type), "Task") && c03handedOver(c, lf, nm.Name) {
+										held[nospace(g.Call.Args[i])]--
+									}
+									i++
+								}
+							}
+						}
+					}
+					return enc(held) + "|" + defs, false
+				}
+				inspectNoLit(nd, func(m ast.Node) bool {
+					k, ok := m.(*ast.CallExpr)
+					if !ok {
+						return true
+					}
+					// ctxsync.(*Cond).Done is documented to release the Cond's lock
+					// before it returns; the Cond is a field of the object whose
+					// lock it was built on (owner.cond)
+					if strings.HasSuffix(fn.Pkg.CalleeName(k), "ctxsync.(*Cond).Done") {
+						if se, ok := k.Fun.(*ast.SelectorExpr); ok {
+							if owner, ok := ast.Unparen(se.X).(*ast.SelectorExpr); ok {
+								held[nospace(owner.X)]--
+							}
+						}
+						return true
+					}
+					if se, ok := k.Fun.(*ast.SelectorExpr); ok && isMutexLike(fn.Pkg, se) {
+						key := nospace(se.X)
+						switch se.Sel.Name {
+						case "Lock", "RLock":
+							if held[key] < 2 {
+								held[key]++
+							}
+						case "Unlock", "RUnlock":
+							if held[key] > -2 {
+								held[key]--
+							}
+						}
+					}
+					return true
+				})
+				return enc(held) + "|" + defs, false
+			},
+			Exit: func(kind ExitKind, ret *ast.ReturnStmt, x string, s *Step) {
+				if kind != ExitReturn {
+					return
+				}
+				parts := strings.SplitN(x, "|", 2)
+				held := dec(parts[0])
+				for _, kv := range strings.Split(parts[1], ";") {
+					if i := strings.LastIndexByte(kv, '='); i > 0 {
+						v := 0
+						fmt.Sscanf(kv[i+1:], "%d", &v)
+						held[kv[:i]] += v
+					}
+				}
+				for k, v := range init {
+					held[k] -= v
+				}
+				for k, v := range held {
+					if v > 0 && bad == "" {
+						bad = k
+						trail = s.Trail()
+					}
+				}
+			}})
+		c.Check(bad == "", fq+"|locks-released-on-every-exit", pr.Pos(fn.Body.Pos()),
+			strings.TrimPrefix(fq, "exec.")+" returns on a path on which "+bad+" is still locked (taken here, not released, not deferred, not handed over): the next run, scan, discard or status update that needs the lock blocks for ever", trail...)
+	}
+	c.Floor("functions of package exec that take or release locks", n, 25)
+}
+
+// isMutexLike: the selector is a method of sync.Mutex/RWMutex, reached directly
+// or through embedding (Task embeds a mutex).
+func isMutexLike(pk *Pkg, se *ast.SelectorExpr) bool {
+	if sel, ok := pk.Info.Selections[se]; ok {
+		if f, ok := sel.Obj().(*types.Func); ok && f.Pkg() != nil && f.Pkg().Path() == "sync" {
+			return true
+		}
+	}
+	return false
 }
